@@ -16,6 +16,21 @@
 (*   Harness.Encode  (f is the well-formed file that was asked for)        *)
 (*   C07.ReadOk  C07.RdCount  C07.RdPositions  C07.RdNormal                *)
 (*   C07.RwOk  C07.RwSize  C07.RwPositions  C07.RwNormal  C07.RwAttr       *)
+(* {"k":"sb","lat":b,"gen":[rec..],"f":file,"rerr":"","bin":[rec..],       *)
+(*  "werr":"","f2":file}      (normals of f, bin, f2 as float32 bits)      *)
+(*    gen -> (independent encoder) -> bytes = f ; stl.Read -> bin ;        *)
+(*    stl.Write(bin) -> f2                                                 *)
+(*   Harness.Encode  C07.BinReadOk  C07.BinRecords  C07.BinWriteOk         *)
+(*   C07.BinSize  C07.BinRewrite                                           *)
+(* {"k":"sz","dir":"w"|"r","n":N,"werr":"","f":sizes,"rerr":"","rdn":M,    *)
+(*  "f2":sizes}   sizes = [nbytes, count, rem, nrecs] (no records)         *)
+(*    dir "w": mesh of N triangles -> stl.WriteMesh -> f -> stl.ReadMesh   *)
+(*             -> M triangles        C07.WriteOk SizeLaw ReadOk RtCount    *)
+(*    dir "r": N records -> encoder -> f -> stl.ReadMesh -> M triangles    *)
+(*             -> stl.WriteMesh -> f2   C07.ReadOk RdCount RwOk RwSize     *)
+(*    for triangle counts too large to judge record by record              *)
+(* Lines also carry "io": the reader/writer variant the case ran with      *)
+(* (harness/objstl/iomodes.go) - for humans; the judgement is the same.    *)
 (* Rejected lines print {"l":..,"bad":[..],"why":[..]}; ex counts per      *)
 (* predicate the lines where it was evaluated on at least one triangle     *)
 (* (anti-vacuity), printed with the last line.                             *)
@@ -85,18 +100,49 @@ SrJudge(ln) ==
                     \cup (IF n > 0 THEN {"C07.RdPositions", "C07.RdNormal"} ELSE {})
                     \cup (IF mixed THEN {"C07.RdNormal.mixed"} ELSE {})]
 
-Judge(ln) == IF ln.k = "sw" THEN SwJudge(ln) ELSE SrJudge(ln)
+SbJudge(ln) ==
+    LET n == Len(ln.gen) IN
+    IF ~EncodedOk(ln) THEN [bad |-> {"Harness.Encode"}, why |-> {}, ex |-> {}]
+    ELSE IF ln.rerr # "" THEN [bad |-> {"C07.BinReadOk"}, why |-> {ln.rerr}, ex |-> {"C07.BinReadOk"}]
+    ELSE LET rw == IF ln.werr # "" THEN [bad |-> {"C07.BinWriteOk"}, why |-> {ln.werr}, ex |-> {"C07.BinWriteOk"}]
+                   ELSE IF ~SizeLaw(ln.f2, n) THEN [bad |-> {"C07.BinSize"}, why |-> {}, ex |-> {"C07.BinWriteOk", "C07.BinSize"}]
+                   ELSE [bad |-> Bad("C07.BinRewrite", BinRewriteOk(ln.f, ln.f2)), why |-> {},
+                         ex |-> {"C07.BinWriteOk", "C07.BinSize"} \cup (IF n > 0 THEN {"C07.BinRewrite"} ELSE {})]
+         IN [bad |-> Bad("C07.BinRecords", BinRecordsOk(ln.f, ln.bin)) \cup rw.bad, why |-> rw.why,
+             ex |-> {"C07.BinReadOk"} \cup rw.ex
+                    \cup (IF n > 0 THEN {"C07.BinRecords"} ELSE {})
+                    \cup (IF \E t \in DOMAIN ln.gen : ln.gen[t].a # 0 THEN {"C07.BinRecords.attr"} ELSE {})]
+
+\* sizes only: the size law and the triangle count, in both directions
+SzJudge(ln) ==
+    IF ln.dir = "w"
+    THEN IF ln.werr # "" THEN [bad |-> {"C07.WriteOk"}, why |-> {ln.werr}, ex |-> {"C07.WriteOk"}]
+         ELSE [bad |-> Bad("C07.SizeLaw", SizeLawN(ln.f, ln.n))
+                       \cup (IF ln.rerr # "" THEN {"C07.ReadOk"} ELSE Bad("C07.RtCount", ln.rdn = ln.n)),
+               why |-> IF ln.rerr # "" THEN {ln.rerr} ELSE {},
+               ex |-> {"C07.WriteOk", "C07.SizeLaw", "C07.SizeLaw.large", "C07.ReadOk"}
+                      \cup (IF ln.rerr = "" THEN {"C07.RtCount", "C07.RtCount.large"} ELSE {})]
+    ELSE IF ~SizeLawN(ln.f, ln.n) THEN [bad |-> {"Harness.Encode"}, why |-> {}, ex |-> {}]
+    ELSE IF ln.rerr # "" THEN [bad |-> {"C07.ReadOk"}, why |-> {ln.rerr}, ex |-> {"C07.ReadOk"}]
+    ELSE IF ln.rdn # ln.n THEN [bad |-> {"C07.RdCount"}, why |-> {}, ex |-> {"C07.ReadOk", "C07.RdCount"}]
+    ELSE IF ln.werr # "" THEN [bad |-> {"C07.RwOk"}, why |-> {ln.werr}, ex |-> {"C07.ReadOk", "C07.RdCount", "C07.RwOk"}]
+    ELSE [bad |-> Bad("C07.RwSize", SizeLawN(ln.f2, ln.n)), why |-> {},
+          ex |-> {"C07.ReadOk", "C07.RdCount", "C07.RdCount.large", "C07.RwOk", "C07.RwSize", "C07.RwSize.large"}]
+
+Judge(ln) == CASE ln.k = "sw" -> SwJudge(ln) [] ln.k = "sr" -> SrJudge(ln) [] ln.k = "sb" -> SbJudge(ln)
+               [] OTHER -> SzJudge(ln)
 
 Bump(cnt, names) == [p \in (DOMAIN cnt) \cup names |->
                         (IF p \in DOMAIN cnt THEN cnt[p] ELSE 0) + (IF p \in names THEN 1 ELSE 0)]
 
 Init == l = 1 /\ ex = [p \in {"lines"} |-> 0]
 
+\* j and ex1 are bound by \E over singleton sets: TLC evaluates the set once and binds the VALUE (a
+\* LET definition at the top of an action is re-evaluated at every mention, which multiplied the
+\* judge's work on long lines)
 Line ==
     /\ l <= Len(Trace)
-    /\ LET ln == Trace[l]
-           j == Judge(ln)
-           ex1 == Bump(ex, j.ex \cup {"lines"}) IN
+    /\ \E j \in {Judge(Trace[l])} : \E ex1 \in {Bump(ex, j.ex \cup {"lines"})} :
        /\ IF j.bad = {} THEN TRUE ELSE PrintT(ToJson([l |-> l, bad |-> j.bad, why |-> j.why]))
        /\ IF l = Len(Trace) THEN PrintT(ToJson([ex |-> ex1])) ELSE TRUE
        /\ ex' = ex1
